@@ -64,6 +64,10 @@ Init == file \in Files /\ rs = R0
 Next == rs.status = "running" /\ rs' = RStep(file, CMap, rs) /\ UNCHANGED file
 Spec == Init /\ [][Next]_vars
 
+(* C08 "terminates": under weak fairness of the step every run of the reader ends *)
+FairSpec == Spec /\ WF_vars(Next)
+Terminates == <>(rs.status # "running")
+
 Total == rs.status \in {"running", "done", "error", "short", "unspec"}
 Progress == [][rs'.status # "running" \/ rs'.pos > rs.pos]_vars
 OrderLang == LegalOrder([k \in 1..Len(rs.recs) |-> rs.recs[k].id])
